@@ -102,7 +102,8 @@ def answerJub (ws : List String) : String :=
     match n.toNat?, parseJTerms rest with
     | some n, some ts =>
       if ts.length ≠ n then "bad-op" else
-      let scalars := ts.map (fun t => EdCurve.bitsLE jub.scalarBits t.1)
+      -- `assign` takes a field element: the value is reduced modulo `r`
+      let scalars := ts.map (fun t => EdCurve.bitsLE jub.scalarBits (t.1 % jub.r))
       let bases := ts.map (fun t => t.2.pt)
       match jub.msm scalars bases with
       | some r => jubAnswer r (ts.map (·.2)) (jub.msmRows scalars bases)
@@ -198,7 +199,7 @@ def answerW (E : WCurve) (isBls : Bool) (ws : List String) : String :=
     match parseWPt p with
     | some p =>
       -- root = h⁻¹·P (honest prover); the circuit asserts `mul_by_constant(h, root) = P`
-      let root := E.smul (invMod (blsCofactor % E.r) E.r) p
+      let root := E.smul (invModE (blsCofactor % E.r) E.r) p
       match E.mulByConstant (blsCofactor % E.r) root with
       | .ok q => if E.canon q == E.canon p then fmtRes (.ok (E.canon p)) else "unsat"
       | .unsat => "unsat"
